@@ -89,7 +89,11 @@ func (c *AuthorizeExplicitGrantHandler) HandleTokenEndpointRequest(ctx context.C
 	// credentials (or assigned other authentication requirements), the
 	// client MUST authenticate with the authorization server as described
 	// in Section 3.2.1.
-	request.SetSession(authorizeRequest.GetSession())
+	// Work on a copy of the stored session (as the refresh token handler does): the expiries set below belong to the
+	// tokens of this request only. A store that hands out its records by reference (such as the in-memory reference
+	// store) shares the stored session with the authorization code and with tokens issued at the authorization endpoint,
+	// whose lifetime must not change because somebody presented the code.
+	request.SetSession(authorizeRequest.GetSession().Clone())
 	request.SetID(authorizeRequest.GetID())
 
 	atLifespan := fosite.GetEffectiveLifespan(request.GetClient(), fosite.GrantTypeAuthorizationCode, fosite.AccessToken, c.Config.GetAccessTokenLifespan(ctx))
